@@ -166,7 +166,8 @@ def py_accepts(text):
         if text != text.strip(" \t\n\r"):
             # only the four JSON whitespace characters may surround the value
             core = text.strip(" \t\n\r")
-        v = json.loads(text, parse_constant=reject)
+        # (the number -0 is negative zero in ECMAScript; Python's decoder reads the integer literal -0 as 0)
+        v = json.loads(text, parse_constant=reject, parse_int=lambda lit: -0.0 if lit.startswith("-") and lit.strip("-0") == "" else int(lit))
         return True, v
     except (ValueError, RecursionError):
         return False, None
